@@ -38,9 +38,12 @@ Fixpoint split_bytes (b : nat) (t : text) : option (text * text) :=
   end.
 
 (* ---------- character classes (regex [...] over the generated range lists) ---------- *)
-Definition in_ranges (rs : list (N * N)) (c : N) : bool :=
-  existsb (fun r => ((fst r <=? c) && (c <=? snd r))%N) rs.
+(* a class is (single code points, proper ranges) *)
+Definition cls := (list N * list (N * N))%type.
 Definition in_list (l : list N) (c : N) : bool := existsb (N.eqb c) l.
+Definition in_range (c : N) (r : N * N) : bool := if (fst r <=? c)%N then (c <=? snd r)%N else false.
+Definition in_ranges (k : cls) (c : N) : bool :=
+  if in_list (fst k) c then true else existsb (in_range c) (snd k).
 
 Definition is_period : N -> bool := in_ranges F.PERIODS.
 Definition is_dot : N -> bool := in_ranges F.DOT.
@@ -54,8 +57,8 @@ Definition is_more (c : N) : bool := is_dot c || is_period c.
 (* PROHIBITED_BOS: [CLOSE COMMA PERIODS] *)
 Definition is_prohibited (c : N) : bool := is_close c || is_comma c || is_period c.
 (* \s of the regex crate = Unicode White_Space *)
-Definition WS : list (N * N) :=
-  [ (9, 13); (32, 32); (133, 133); (160, 160); (5760, 5760); (8192, 8202); (8232, 8233); (8239, 8239); (8287, 8287); (12288, 12288) ]%N.
+Definition WS : cls :=
+  ([ 32; 133; 160; 5760; 8239; 8287; 12288 ]%N, [ (9, 13); (8192, 8202); (8232, 8233) ]%N).
 Definition is_ws : N -> bool := in_ranges WS.
 
 (* length of the longest prefix whose characters satisfy p  (greedy X* / X+ with nothing to give back) *)
@@ -196,13 +199,20 @@ Definition itemize_header (s : text) : bool :=
   | _ => false
   end.
 
+(* the last character of t and the one before it *)
+Fixpoint last2 (a : option N) (t : text) : option (option N * N) :=
+  match t with
+  | [] => None
+  | c :: r => match r with [] => Some (a, c) | _ => last2 (Some c) r end
+  end.
+
 (* is_continuous_phrase(s, eos) for 0 < eos < |s| *)
 Definition continuous (s : text) (eos : nat) : bool :=
   let rest := skipn eos s in
-  match rev (firstn eos s), rest with
-  | l :: before, c :: _ =>
+  match last2 None (firstn eos s), rest with
+  | Some (before, l), c :: _ =>
       if (in_list F.QUOTE_FIRST l || is_close l) && existsb (fun w => starts_with w rest) F.QUOTE_SECOND then true
-      else in_list F.ITEM_FOLLOW c && match before with a :: _ => is_an a && is_dot l | [] => false end
+      else in_list F.ITEM_FOLLOW c && match before with Some a => is_an a && is_dot l | None => false end
   | _, _ => false
   end.
 
@@ -212,21 +222,26 @@ Definition continuous (s : text) (eos : nat) : bool :=
 Section Checker.
   Variable lookup : text -> list nat.
 
-  Definition crosses (k j l : nat) : bool := (k <? j + l) || ((j + l =? k) && (1 <? l)).
+  (* a word of l characters starting `rem` characters before the candidate crosses it, or ends on it and is longer
+     than one character *)
+  Definition crosses (rem l : nat) : bool := (rem <? l) || ((l =? rem) && (1 <? l)).
 
-  (* t = the input from character j on, b = byte offset of j *)
-  Fixpoint nb_scan (lo k j b : nat) (t : text) : bool :=
-    match t with
-    | [] => false
-    | c :: r =>
-        if j <? k then
-          if (if lo <=? b then existsb (crosses k j) (lookup t) else false) then true
-          else nb_scan lo k (S j) (b + width c) r
-        else false
+  (* t = the input from a character `rem` characters before the candidate on; skipb = bytes still missing to reach
+     lookup_start (0 = inside the look-back window) *)
+  Fixpoint nb_scan (rem skipb : nat) (t : text) : bool :=
+    match rem with
+    | 0 => false
+    | S rem' =>
+        match t with
+        | [] => false
+        | c :: r =>
+            if (match skipb with 0 => existsb (crosses rem) (lookup t) | S _ => false end) then true
+            else nb_scan rem' (skipb - width c) r
+        end
     end.
 
   Definition has_non_break_word (input : text) (k : nat) : bool :=
-    nb_scan (blen (firstn k input) - N.to_nat F.LOOKUP_BYTE_LENGTH) k 0 0 input.
+    nb_scan k (blen (firstn k input) - N.to_nat F.LOOKUP_BYTE_LENGTH) input.
 End Checker.
 
 (* ---------- SPACES = .+\s+ (leftmost-first): end of the match ---------- *)
@@ -352,7 +367,7 @@ Fixpoint rev_tags (fuel n : nat) (rt : text) : bool :=
 Definition is_trailer (c : N) : bool := is_close c || is_comma c || is_period c || is_dot c.
 
 Definition ends_after_terminator_b (t : text) : bool :=
-  let rt := rev t in
+  let rt := rev_append t [] in
   let k := span is_trailer rt in
   if existsb is_more (firstn k rt) then true
   else
